@@ -147,6 +147,8 @@ def _work(args):
     try:
         for i in range(start, stop):
             case = gen_case(mod, base_seed, tier, i)
+            if want_samples and len(out['samples']) < want_samples:
+                case['_excerpt'] = True          # evidence samples carry the tail of their recorded history
             res = safe_run(mod, case)
             out['n'] += 1
             if res.get('nontrivial'):
@@ -162,8 +164,10 @@ def _work(args):
             if res['viol'] and len(out['viol']) < 50:
                 out['viol'].append((i, res['viol'][:6]))
             if want_samples and len(out['samples']) < want_samples:
-                c = {k: v for k, v in case.items()}
-                out['samples'].append({'case': c, 'excerpt': res.get('excerpt')})
+                c = {k: v for k, v in case.items() if k != '_excerpt'}
+                ex = res.get('excerpt')
+                out['samples'].append({'case': c, 'history_tail': ex[-25:] if ex else None,
+                                       'verdict': [list(v) for v in res['viol'][:3]]})
     except HarnessError as e:
         out['error'] = 'index %d: %s' % (i, e)
     except BaseException as e:  # pragma: no cover
